@@ -194,6 +194,42 @@ class NormCtx:
                         self.facts[key] = v >= 0
         return v
 
+    def factored(self, key, q):
+        """z3 term for the canonical polynomial q: its monomial content (atoms common to every term) is pulled out as a product of
+        per-atom variables, the remaining polynomial gets its own variable: k*s*P and P then share the variable of P"""
+        P = self.P
+        if len(q) < 2:
+            if len(q) == 1:
+                (m, c), = q.items()
+                if len(m) > 1 or (len(m) == 1 and m[0][1] != 1):
+                    t = None
+                    for a, e in m:
+                        va = self.pvar(P.key_of({((a, 1),): Fraction(1)}), {((a, 1),): Fraction(1)})
+                        for _ in range(abs(e)):
+                            t = (va if t is None else t * va) if e > 0 else ((1 / va) if t is None else t / va)
+                    return t
+            return self.pvar(key, q)
+        it = iter(q.keys())
+        g = dict(next(it))
+        for m in it:
+            d = dict(m)
+            for a in list(g):
+                e = d.get(a)
+                if e is None or (e > 0) != (g[a] > 0): del g[a]
+                else: g[a] = min(g[a], e) if e > 0 else max(g[a], e)
+            if not g: break
+        if not g:
+            return self.pvar(key, q)
+        div = tuple(sorted((a, -e) for a, e in g.items()))
+        rest = {P.mmul(m, div): c for m, c in q.items()}
+        c2, k2, q2 = P.canon(rest)
+        t = z3.RealVal(str(c2)) * self.pvar(k2, q2)
+        for a, e in sorted(g.items()):
+            va = self.pvar(P.key_of({((a, 1),): Fraction(1)}), {((a, 1),): Fraction(1)})
+            for _ in range(abs(e)):
+                t = t * va if e > 0 else t / va
+        return t
+
     def sqrt_quotient(self, p):
         """Q / s with Q a constant multiple of the radicand of the sqrt atom s is c * s (since s*s = radicand)"""
         P = self.P
@@ -234,7 +270,7 @@ class NormCtx:
             elif len(p) == 1 and () in p:
                 lhs = z3.RealVal(str(p[()]))
             else:
-                lhs = z3.RealVal(str(c)) * self.pvar(key, q)
+                lhs = z3.RealVal(str(c)) * self.factored(key, q)
             zero = z3.RealVal(0)
             r = {'lt': lhs < zero, 'le': lhs <= zero, 'gt': lhs > zero, 'ge': lhs >= zero, 'eq': lhs == zero, 'ne': lhs != zero}[op]
         else:
@@ -918,6 +954,8 @@ class FPPathController(PathController):
     def __init__(self, max_paths=256):
         PathController.__init__(self, None, 0, max_paths)
         self.use_sampling = False
+        self.cut_function = None      # name of a function whose formatting tail is cut (see ReturnFrom)
+        self.cut_predicate = lambda cond: False
 
     def begin_path(self, prefix):
         self.prefix = prefix
@@ -934,6 +972,9 @@ class FPPathController(PathController):
         self.pc.append(node)
 
     def decide(self, cond, it):
+        if self.cut_function is not None and self.cut_function in it.call_stack and self.cut_predicate(cond):
+            from .interp import ReturnFrom
+            raise ReturnFrom(self.cut_function)
         if self.pos < len(self.prefix):
             d = self.prefix[self.pos]
             self.pos += 1
@@ -951,6 +992,9 @@ class FPPathController(PathController):
         return 0
 
     def concretize(self, v, it):
+        if self.cut_function is not None and self.cut_function in it.call_stack:
+            from .interp import ReturnFrom
+            raise ReturnFrom(self.cut_function)
         raise Unsupported('symbolic integer used as address/index in bit-precise mode at %s' % it.where())
 
     def note_division(self, b, it): pass
